@@ -105,10 +105,10 @@ ALL_SPELL = ["int", "int8", "int16", "int32", "int64", "uint", "uint8", "uint16"
 
 def hdrgrid_cases(ctx):
     if ctx.quick():
-        consts = dict(Structs=tlaset(["prot", "unprot", "sign1", "signsig", "nested"]), Spellings=tlaset(ALL_SPELL),
+        consts = dict(Structs=tlaset(["prot", "unprot", "sign1", "signsig", "nested", "nested2"]), Spellings=tlaset(ALL_SPELL),
                       PairSpellings=tlaset(["int", "int8", "int64", "uint16", "uint64"]))
     else:
-        consts = dict(Structs=tlaset(["prot", "unprot", "sign1", "sig", "sign", "signsig", "nested"]), Spellings=tlaset(ALL_SPELL),
+        consts = dict(Structs=tlaset(["prot", "unprot", "sign1", "sig", "sign", "signsig", "nested", "nested2"]), Spellings=tlaset(ALL_SPELL),
                       PairSpellings=tlaset(ALL_SPELL))
     return gen(ctx, "Gen_C13", cfgtext(invariants=["Emit"], constants=consts), timeout=3000, heap="8g")
 
@@ -132,7 +132,7 @@ def c13(ctx):
 @prop("C08")
 def c08(ctx):
     structs = ["prot", "unprot", "sign1P", "sign1U", "sign1uP", "sigP", "csigU", "signP", "signsig"]
-    big = gen(ctx, "Gen_C08", cfgtext(invariants=["Emit"], constants=dict(MaxEntries=1, Structs=tlaset(["sign1Big", "signBig"]))), timeout=600, heap="8g")
+    big = gen(ctx, "Gen_C08", cfgtext(invariants=["Emit"], constants=dict(MaxEntries=1, Structs=tlaset(["sign1Big", "signBig", "manyP", "manyU", "manysigs"]))), timeout=600, heap="8g")
     consts = dict(MaxEntries=3 if ctx.quick() else 5, Structs=tlaset(structs))
     cases = gen(ctx, "Gen_C08", cfgtext(invariants=["ImageDeterministic", "Emit"], constants=consts), timeout=3000, heap="8g")
     cases += big + hdrgrid_cases(ctx)
@@ -207,6 +207,8 @@ def c07(ctx):
 
 @prop("C02")
 def c02(ctx):
+    # calibration of the specification's own Sig_structure builders and parser against third-party bytes (gluecose vectors, RFC 9338 literals)
+    mc(ctx, "Vectors", cfgtext(), workers=1, timeout=300)
     # wire side (decoded messages, every encoder choice) ...
     events = harness(ctx, ["exec", "wireflow"], wire_respell_cases(ctx))
     rejects = judge(ctx, "Trace_Wire", events, extra_cfg='CONSTANT Prop = "C02"\n', per_shard=1500)
@@ -362,6 +364,7 @@ def c11(ctx):
 # ----------------------------------------------------------------------------- C10
 @prop("C10")
 def c10(ctx):
+    mc(ctx, "Vectors", cfgtext(), workers=1, timeout=300)      # CountersignStructure pinned to the RFC 9338 to-be-signed literals
     cases = gen(ctx, "Gen_C10", cfgtext(invariants=["Emit"], constants=dict(Deep="FALSE" if ctx.quick() else "TRUE")), timeout=3000, heap="8g")
     events = harness(ctx, ["exec", "memflow"], cases)
     rejects = judge(ctx, "Trace_C10", events)
@@ -608,6 +611,7 @@ def c06(ctx):
         keys, hdrs = rnd.sample(keys, min(len(keys), 40000)), rnd.sample(hdrs, min(len(hdrs), 15000))
     cases += keys + hdrs
     cases += harness(ctx, ["drive", "nopanic"])
+    cases += [dict(bytes=[], src="tiny")] + [dict(bytes=[a], src="tiny") for a in range(256)] + [dict(bytes=[a, b], src="tiny") for a in range(256) for b in range(256)]
     seen, uniq = set(), []
     for c in cases:
         k = tuple(c["bytes"])
